@@ -78,6 +78,10 @@ def facts_dir(mode="lib"):
     fcntl.flock(lock, fcntl.LOCK_EX)
     try:
         if os.path.exists(os.path.join(d, "COMPLETE")):
+            try:
+                os.utime(d, None)         # LRU
+            except OSError:
+                pass
             return d
         if os.path.exists(d):
             shutil.rmtree(d)
